@@ -3,6 +3,7 @@ package main
 import (
 	"go/ast"
 	"go/printer"
+	"go/token"
 	"strings"
 )
 
@@ -274,6 +275,23 @@ func init() {
 			})
 		}
 		f.boolFact("writeTimeGuard", wtg)
+		// C15: the ref filter compares the literal prefix (no LIKE)
+		fq := f.funcDecl("pkg/ref/sql/store.go", "", "filterQuery")
+		usesLike, usesSubstr := false, false
+		if fq != nil {
+			ast.Inspect(fq.Body, func(n ast.Node) bool {
+				if bl, ok := n.(*ast.BasicLit); ok && bl.Kind == token.STRING {
+					if strings.Contains(strings.ToUpper(bl.Value), "LIKE") || strings.Contains(strings.ToUpper(bl.Value), "GLOB") {
+						usesLike = true
+					}
+					if strings.Contains(bl.Value, "substr(name, 1, length(?))") {
+						usesSubstr = true
+					}
+				}
+				return true
+			})
+		}
+		f.boolFact("refFilterIsLiteralPrefix", usesSubstr && !usesLike)
 		// C06: packfile header bit count
 		eh := f.funcDecl("pkg/encoding/packfile/packfile.go", "", "encodeObjTypeAndLen")
 		bt := f.declType(eh, "bits")
